@@ -580,7 +580,7 @@ def main(argv=None):
             sys.stderr.write(_fmt_row(r) + "\n")
             sys.stderr.flush()
         sys.stderr.write(_HEADER + "\n")
-        results = run_all(a.tier, a.jobs, a.only_crates, progress=None if a.json else progress)
+        results = run_all(a.tier, a.jobs, a.only_crates, progress=progress)
         if a.json:
             print(json.dumps(results, indent=1))
         else:
